@@ -38,11 +38,12 @@ def state_case(rnd, removal=None, max_calls=10, family=None, malformed=0.0, isol
         hist = [(o[0], o[1], z(o[2]), z(o[3])) + tuple(o[4:]) if o[0] == 'add' else o for o in hist]
         pre = [(o[0], o[1], z(o[2])) + tuple(o[3:]) for o in pre]
         classes.append('node_id_zero')
-    if rnd.random() < 0.15:
+    if rnd.random() < 0.22:
         from props.base import shift_op
-        d = -rnd.randint(4, 15)
+        # negative instants; instants around 2^31, 2^61 and millisecond epochs (the OCaml driver moves native 63-bit integers) (integers are unbounded in Python)
+        d = rnd.choice([-rnd.randint(4, 15), -rnd.randint(4, 15), 2 ** 31 - 3, 1700000000000, 2 ** 61 - 4])
         hist = [tuple(shift_op(o, d)) for o in hist]
-        classes.append('negative_instants')
+        classes.append('negative_instants' if d < 0 else 'huge_instants')
     return dict(directed=directed, removal=removal, hist=pre + hist, classes=classes,
                 family=family or rnd.choice(['int', 'int', 'str', 'tuple', 'sym']), functional=rnd.choice([0, 0, 0, 1, 1, 2]))
 
@@ -57,6 +58,11 @@ def known_nodes(hist, results=None):
                     ns.append(x)
         elif op[0] == 'addnode' and op[2] not in ns:
             ns.append(op[2])
+        elif op[0] == 'bulk3' and op[2] is not None:
+            for p in op[4]:
+                for x in p[:2]:
+                    if x not in ns:
+                        ns.append(x)
         elif op[0] == 'bulk' and op[3] is not None:
             for p in op[5]:
                 for x in (p if isinstance(p, tuple) else (p,)):
@@ -86,6 +92,7 @@ def query_probes(r, ns, ts, directed, light=False):
             ps.append(('deg', r, kind, t, sub))
             ps.append(('deg', r, kind, t, []))              # empty nbunch: nothing
             if ns:
+                ps.append(('deg', r, kind, t, ('iter', ns[:3])))       # a one-shot iterator is a legal nbunch
                 ps.append(('deg', r, kind, t, [ns[-1]]))
                 ps.append(('deg', r, kind, t, ('one', ns[0])))   # scalar nbunch (node ids may be falsy: 0)
                 ps.append(('deg', r, kind, t, ('one', ns[-1])))
@@ -148,3 +155,65 @@ class Truth:
                 G.add_edge(u, v)
         self._cache[key] = G
         return G
+
+
+# ----------------------------------------------------------------------------------------------------------
+# aliasing between a graph and the graphs derived from it (C03, C06, C16): the derived graph must not follow when its
+# SOURCE is extended afterwards.  Runs on registers 10 (a second copy of the source) and 11.. (derived), so that the
+# property's own observations of registers 0.. are not disturbed.
+# ----------------------------------------------------------------------------------------------------------
+ALIAS_SRC = 10
+
+
+def latest_ends(hist, directed):
+    """end of the latest run of every pair, by the documented merge rule (steers the mutation probes only)"""
+    from props.base import SpanTracker
+    tr = SpanTracker(directed, True)
+    for op in hist:
+        if op[0] == 'add' and op[4] is not None and tr.expected_outcome(op[2], op[3], op[4], op[5]) == 'Done':
+            tr.apply(op[2], op[3], op[4], op[5])
+    return {k: max(s) for k, s in tr.pres.items() if s}
+
+
+def alias_phase(hist, directed, ns, ts, derivations, ends):
+    """derivations: list of (op-builder(dst) -> op, directed_of_result); ends: {pair: end of its latest run}"""
+    S = ALIAS_SRC
+    prog = [('new', S, directed, True)]
+    prog += [(o[0], S) + tuple(o[2:]) for o in hist if o[0] in ('add', 'addnode', 'bulk')]
+    regs = []
+    for j, (mk, dres) in enumerate(derivations):
+        r = S + 1 + j
+        prog.append(mk(S, r))
+        regs.append((r, dres))
+    def observe():
+        out = []
+        for r, dres in regs:
+            out += [('nodes', r, None)] + has_probes(r, ns, ts)
+            out += [('inter', r, 'out_interactions' if dres else 'interactions', None, None), ('ids', r), ('stream', r)]
+        return out
+    prog += observe()
+    prog.append(('isempty', S))                                   # sentinel: the source is extended from here on
+    for (k, end_) in sorted(ends.items()):
+        prog.append(('add', S, k[0], k[1], end_, end_ + 3))       # extends the latest run in place
+        prog.append(('add', S, k[0], k[1], end_ + 9, None))       # and opens a new one
+    prog += observe()
+    return prog
+
+
+def alias_oracle(prog, ri):
+    fails = []
+    S = ALIAS_SRC
+    marks = [i for i, op in enumerate(prog) if op[0] == 'isempty' and op[1] == S]
+    if not marks:
+        return fails
+    m = marks[-1]
+    first = [(op, r) for op, r in zip(prog[:m], ri[:m]) if isinstance(op[1], int) and op[1] > S and op[0] in ('nodes', 'has', 'inter', 'ids', 'stream')]
+    second = [(i, op, r) for i, (op, r) in enumerate(zip(prog, ri)) if i > m and isinstance(op[1], int) and op[1] > S and op[0] in ('nodes', 'has', 'inter', 'ids', 'stream')]
+    if len(first) != len(second):
+        return fails
+    for (op1, r1), (i, op2, r2) in zip(first, second):
+        if op1 == op2 and r1 != r2 and r1 != 'NOREG' and r2 != 'NOREG':
+            fails.append(dict(index=i, op=list(op2), what='the derived graph changed when its source was extended afterwards: %r before, %r after' % (
+                r1 if not isinstance(r1, list) else r1[:3], r2 if not isinstance(r2, list) else r2[:3])))
+            break
+    return fails
